@@ -291,6 +291,7 @@ package tex
 //@   requires bvalid(b) && iovalid() && io.EOF != nil && ioend < 4611686018427387904
 //@   maypanic
 //@   ensures #count n >= 0 && n == iopos - old(iopos) && blen(b) == old(blen(b)) + n && bvalid(b) && b.lastRead == 0
+//@   ensures #eofisnoerror err != io.EOF
 //@   ensures #kept forall i int :: { at(b, i) } 0 <= i && i < old(blen(b)) ==> at(b, i) == old(at(b, i))
 //@   ensures #appended forall q int :: { at(b, q) } old(blen(b)) <= q && q < blen(b) ==> at(b, q) == elt(iosrc, old(iopos), q - old(blen(b)))
 //@   ensures_panic true
